@@ -346,7 +346,13 @@ class Recorder:
             for bb in betamap.values():
                 for x in bb:
                     if isinstance(x, ss.TimePar):
-                        rec['timepars'].append(dict(v=float(x.v), values=beta_float(x), parent_dt=float(x.parent_dt), unit=str(x.unit), parent_unit=str(x.parent_unit)))
+                        tp = dict(v=float(x.v), values=beta_float(x), parent_dt=float(x.parent_dt), unit=str(x.unit), parent_unit=str(x.parent_unit),
+                                  module_unit=str(d.t.unit), factor=float(x.factor))
+                        try:     # the factor for the timeline the disease actually steps on (unit conversion itself is C06's, taken from starsim)
+                            tp['want_factor'] = float(ss.time.time_ratio(unit1=x.unit, dt1=x.self_dt, unit2=d.t.unit, dt2=d.t.dt))
+                        except Exception:
+                            tp['want_factor'] = None
+                        rec['timepars'].append(tp)
             for i, (k, net) in enumerate(sim.networks.items()):
                 b = betamap[ss.standardize_netkey(k)]
                 bf = [beta_float(b[0]), beta_float(b[1])]
@@ -473,7 +479,7 @@ class Recorder:
                                 return orig(d, uids, *a, **k)
                             finally:
                                 R.pdepth -= 1
-                                if top and R.running:
+                                if top and R.running and isinstance(d, ss.Infection):   # NCD-type diseases are acquired, not transmitted: outside C12
                                     e = dict(disease=d.name, ti=int(d.ti), kind=meth, uids=np.array(uids).astype(int))
                                     if R.in_step is d and R.infects and R.infects[-1]['disease'] == d.name and R.infects[-1]['ti'] == int(d.ti):
                                         R.infects[-1]['prog'].append(e)
@@ -519,6 +525,49 @@ def run_recorded(cfg):
         R.running = False
         R.uninstall()
     return R
+
+
+# ---------------------------------------------------------------------------
+# the shared scenario zoo (harness/zoo.py, harness/impl.py configuration format)
+
+def zoo_build(cfg):
+    return impl.build_sim(cfg)
+
+
+def run_recorded_zoo(cfg):
+    """ one zoo entry (impl format) run to its end under the recorder; age-bracket pools get their group specifications """
+    R = Recorder()
+    R.install()
+    try:
+        np.random.seed(cfg.get('rand_seed', 1))
+        sim = zoo_build(cfg)
+        sim.init()
+        for n, route in zip(cfg.get('networks', []), sim.networks.values()):
+            if n.get('type') == 'agepools':      # impl._network: MixingPools over young = [0, cut), old = [cut, inf), default cache
+                for mp, ssrc, sdst, na in c12_groups.route_specs(dict(type='pools', split=n.get('cut', 15)), route):
+                    R.specs[id(mp)] = (ssrc, sdst, na)
+                    for spec, g in ((ssrc, mp.pars.src), (sdst, mp.pars.dst)):
+                        R.agspecs = getattr(R, 'agspecs', {})
+                        R.agspecs[R.agslot(g)] = spec
+        R.sim = sim
+        R.running = True
+        for _ in range(int(sim.t.npts)):
+            sim.run_one_step()
+    finally:
+        R.running = False
+        R.uninstall()
+    return R
+
+
+def zoo_has_transmission(cfg):
+    """ the C12 oracles look at transmission events: an entry needs at least one disease (the NCD-only entry has a disease
+        but no Infection: it still runs, the recorder then sees no infect() call and only the `outside-event` part applies) """
+    return bool(cfg.get('diseases'))
+
+
+def zoo_monotone_variant(cfg, i, seed):
+    """ one monotonicity check per entry: all betas scaled (same zero pattern), forked at a step inside the run """
+    return dict(kind='scale', factor=[1.5, 3.0, 10.0][(i + seed) % 3])
 
 
 # ---------------------------------------------------------------------------
@@ -656,7 +705,7 @@ def compare_infect(ctx, cfg, rec, out):
     return None
 
 
-def pool_lines(rec, agslots=None):
+def pool_lines(rec, agslots=None, base=0):
     """ one `state` + `pool` line pair per disease iteration that reached the Bernoulli filter """
     lines = []; idx = []
     dst = rec['dst']
@@ -680,7 +729,7 @@ def pool_lines(rec, agslots=None):
             toks = []
             for spec, slot in zip((ssrc, sdst), rec['grp_slot']):
                 if c12_groups.is_age(spec):
-                    sl = 1000 + (slot if slot is not None else 999)
+                    sl = base + 1000 + (slot if slot is not None else 999)
                     if sl not in agslots:
                         agslots.add(sl)
                         lo, hi = spec['age']
@@ -940,6 +989,117 @@ def parse_rat_enc(s):
     return fractions.Fraction(s)
 
 
+def prepare_run(ctx, R, tag, data, base=0):
+    """ driver lines of one recorded run: every infect() call, every pool step (also from the group parameters), every AgeGroup
+        call (driver slots of AgeGroup objects start at `base`, so several runs can share one driver process).
+        Returns (lines, index) or None when the call structure already diverges (reported). """
+    lines = []; index = []
+    agslots = set()
+    for rec in R.infects:
+        err = attach_calls(rec)
+        if err:
+            ctx.broke('correspondence', 'C12.infect', f"{tag}{rec['cls']} ti={rec['ti']}: {err}", data=data)
+            return None
+        ls = infect_lines(rec)
+        index.append(('infect', rec, len(lines), len(ls))); lines += ls
+    for rec in R.pools:
+        ls, idx = pool_lines(rec, agslots, base)
+        index.append(('pool', (rec, idx), len(lines), len(ls))); lines += ls
+    agspecs = getattr(R, 'agspecs', {})
+    agc = [c for c in R.agcalls if c['slot'] in agspecs]
+    if agc:      # every AgeGroup.__call__ of the run, per object in order, against the model's cache automaton
+        ls, aidx = agcall_lines(agc, lambda c: (agspecs[c['slot']]['age'][0], agspecs[c['slot']]['age'][1], agspecs[c['slot']].get('do_cache')), base)
+        index.append(('agcalls', (agc, aidx), len(lines), len(ls))); lines += ls
+    return lines, index
+
+
+def correspond_run(ctx, cfg, R, stats, tag, data):
+    """ one recorded run against the model.  Returns False when a divergence was reported. """
+    prep = prepare_run(ctx, R, tag, data)
+    if prep is None:
+        return False
+    lines, index = prep
+    if not lines:
+        return True
+    return compare_run(ctx, cfg, lines, index, ctx.drive(DRIVER, lines), stats, tag, data)
+
+
+def compare_run(ctx, cfg, lines, index, out, stats, tag, data):
+    for kind, rec, off, n in index:
+        o = out[off:off + n]
+        if kind == 'agcalls':
+            if not compare_agcalls(ctx, rec[0], lines[off:off + n], rec[1], o, f"{tag}sim", data):
+                return False
+            continue
+        if kind == 'infect':
+            div = compare_infect(ctx, cfg, rec, o)
+            ntrans = sum(len(c['t_out']) for c in rec['calls'])
+            stats['infect_calls'] += 1; stats['kernel_calls'] += len(rec['calls'])
+            stats['edges'] += sum(len(c['src']) for c in rec['calls']); stats['transmissions'] += ntrans
+            ctx.case(('infect', tuple(lines[off:off + n])), nontrivial=ntrans > 0,
+                     sample=dict(kind='infect', disease=rec['cls'], ti=rec['ti'], routes=[r['key'] for r in rec['routes']],
+                                 betas=[r['b'] for r in rec['routes']], kernel_calls=len(rec['calls']), new_cases=len(rec['out'][0])))
+            if div:
+                ctx.broke('correspondence', 'C12.infect', f"{tag}{rec['cls']} ti={rec['ti']}: {div['why']}",
+                          data=dict(data, ti=rec['ti'], disease=rec['disease']))
+                return False
+        else:
+            prec, idx = rec
+            div = compare_pool(ctx, prec, idx, o)
+            ncase = sum(len(e['uids']) for e in prec['prog'])
+            stats['pool_steps'] += 1; stats['pool_cases'] += ncase
+            ctx.case(('pool', tuple(lines[off:off + n])), nontrivial=ncase > 0,
+                     sample=dict(kind='pool', ti=prec['ti'], beta=prec['beta'], n_src=len(prec['src']), n_dst=len(prec['dst']), cases=ncase))
+            if div:
+                ctx.broke('correspondence', 'C12.pool', tag + div['why'], data=dict(data, ti=prec['ti']))
+                return False
+    return True
+
+
+ZOO_RUNS = {}     # zoo entry -> recorded run, made in correspond() and re-used by search() in the same process
+
+
+def zoo_run_cached(name, cfg):
+    if name not in ZOO_RUNS:
+        ZOO_RUNS[name] = run_recorded_zoo(cfg)
+    return ZOO_RUNS[name]
+
+
+def correspond_zoo(ctx, stats):
+    """ the model follows whole runs of the shared zoo: every entry is recorded (and kept for the oracle), every second one
+        (rotating with the seed) is compared call by call with the driver """
+    from harness import zoo
+    batch = []; all_lines = []
+    for i, (name, cfg) in enumerate(zoo.configs()):
+        if not zoo_has_transmission(cfg):
+            continue
+        try:
+            R = zoo_run_cached(name, cfg)
+        except Exception as e:
+            ctx.count('zoo_exceptions'); ctx.notes['last_zoo_exception'] = f'{name}: {type(e).__name__}: {e}'; continue
+        if (i + ctx.seed) % 2:
+            continue
+        tag = f'[zoo:{name}] '; data = dict(kind='zoo-sim', name=name, cfg=cfg)
+        try:
+            prep = prepare_run(ctx, R, tag, data, base=10000 * (len(batch) + 1))
+        except Exception as e:
+            ctx.count('zoo_exceptions'); ctx.notes['last_zoo_exception'] = f'{name} (correspondence): {type(e).__name__}: {e}'; continue
+        if prep is None:
+            return
+        batch.append((name, cfg, tag, data, len(all_lines), prep[0], prep[1])); all_lines += prep[0]
+    if not all_lines:
+        return
+    out = ctx.drive(DRIVER, all_lines)      # one driver process for the whole zoo (start-up dominates short runs)
+    for name, cfg, tag, data, off, lines, index in batch:
+        ctx.count('zoo_runs_compared')
+        try:
+            ok = compare_run(ctx, cfg, lines, index, out[off:off + len(lines)], stats, tag, data)
+        except Exception as e:
+            ctx.count('zoo_exceptions'); ctx.notes['last_zoo_exception'] = f'{name} (correspondence): {type(e).__name__}: {e}'; continue
+        if not ok:
+            return
+
+
 def correspond(ctx):
     import starsim as ss
     facts = (ctx.extracted.get('TransmissionFacts') or {}).get('facts') or {}
@@ -963,54 +1123,9 @@ def correspond(ctx):
             continue
         ctx.count('sims'); ctx.count('family_' + cfg['family'])
         for d in cfg['diseases']: ctx.count('disease_' + d['type'])
-        lines = []; index = []
-        agslots = set()
-        for rec in R.infects:
-            err = attach_calls(rec)
-            if err:
-                ctx.broke('correspondence', 'C12.infect', f"{rec['cls']} ti={rec['ti']}: {err}", data=dict(kind='sim', cfg=cfg))
-                return
-            ls = infect_lines(rec)
-            index.append(('infect', rec, len(lines), len(ls))); lines += ls
-        for rec in R.pools:
-            ls, idx = pool_lines(rec, agslots)
-            index.append(('pool', (rec, idx), len(lines), len(ls))); lines += ls
-        agspecs = getattr(R, 'agspecs', {})
-        agc = [c for c in R.agcalls if c['slot'] in agspecs]
-        if agc:      # every AgeGroup.__call__ of the run, per object in order, against the model's cache automaton
-            ls, aidx = agcall_lines(agc, lambda c: (agspecs[c['slot']]['age'][0], agspecs[c['slot']]['age'][1], agspecs[c['slot']].get('do_cache')))
-            index.append(('agcalls', (agc, aidx), len(lines), len(ls))); lines += ls
-        if not lines:
-            continue
-        out = ctx.drive(DRIVER, lines)
-        for kind, rec, off, n in index:
-            o = out[off:off + n]
-            if kind == 'agcalls':
-                if not compare_agcalls(ctx, rec[0], lines[off:off + n], rec[1], o, f"{cfg['family']} sim", dict(kind='sim', cfg=cfg)):
-                    return
-                continue
-            if kind == 'infect':
-                div = compare_infect(ctx, cfg, rec, o)
-                ntrans = sum(len(c['t_out']) for c in rec['calls'])
-                stats['infect_calls'] += 1; stats['kernel_calls'] += len(rec['calls'])
-                stats['edges'] += sum(len(c['src']) for c in rec['calls']); stats['transmissions'] += ntrans
-                ctx.case(('infect', tuple(lines[off:off + n])), nontrivial=ntrans > 0,
-                         sample=dict(kind='infect', disease=rec['cls'], ti=rec['ti'], routes=[r['key'] for r in rec['routes']],
-                                     betas=[r['b'] for r in rec['routes']], kernel_calls=len(rec['calls']), new_cases=len(rec['out'][0])))
-                if div:
-                    ctx.broke('correspondence', 'C12.infect', f"{rec['cls']} ti={rec['ti']}: {div['why']}",
-                              data=dict(kind='sim', cfg=cfg, ti=rec['ti'], disease=rec['disease']))
-                    return
-            else:
-                prec, idx = rec
-                div = compare_pool(ctx, prec, idx, o)
-                ncase = sum(len(e['uids']) for e in prec['prog'])
-                stats['pool_steps'] += 1; stats['pool_cases'] += ncase
-                ctx.case(('pool', tuple(lines[off:off + n])), nontrivial=ncase > 0,
-                         sample=dict(kind='pool', ti=prec['ti'], beta=prec['beta'], n_src=len(prec['src']), n_dst=len(prec['dst']), cases=ncase))
-                if div:
-                    ctx.broke('correspondence', 'C12.pool', div['why'], data=dict(kind='sim', cfg=cfg, ti=prec['ti']))
-                    return
+        if not correspond_run(ctx, cfg, R, stats, '', dict(kind='sim', cfg=cfg)):
+            return
+    correspond_zoo(ctx, stats)
     ctx.notes['correspondence_stats'] = stats
 
 
@@ -1113,9 +1228,11 @@ def oracle_records(R, cfg):
                     F('kernel-probability', f'{ktag}: kernel output differs from rel_trans[src]*rel_sus[trg]*beta_per_dt > r on (target, source) pairs {ex}')
         # per-step value of TimePar betas must be the value for the disease's own step length
         for tp in rec['timepars']:
-            if tp['unit'] == tp['parent_unit'] and abs(tp['parent_dt'] - rec['module_dt']) > 1e-12:
-                F('timepar-beta-dt', f"{tag}: the disease steps every {rec['module_dt']} {tp['unit']}(s) but its beta ss.beta({tp['v']}) was converted with dt={tp['parent_dt']} "
-                                     f"(per-step value {tp['values']!r} instead of {1 - (1 - tp['v']) ** rec['module_dt']!r})")
+            wf = tp.get('want_factor')
+            if wf is not None and wf > 0 and abs(tp['factor'] - wf) > 1e-9 * max(abs(wf), abs(tp['factor'])):
+                # values = 1 - (1 - v)^(1/factor): the per-step probability for a step of the PARENT timeline the TimePar was given
+                F('timepar-beta-dt', f"{tag}: the disease steps every {rec['module_dt']} {tp['module_unit']}(s) but its beta ss.beta({tp['v']}, per {tp['unit']}) was converted for "
+                                     f"steps of {tp['parent_dt']} {tp['parent_unit']}(s) (per-step value {tp['values']!r} instead of {1 - (1 - tp['v']) ** (1 / wf)!r})")
                 break
         # congenital split and the infection log
         if 'age' in rec:
@@ -1262,7 +1379,7 @@ def raised(beta, variant, idx):
     return b
 
 
-def monotone_case(cfg, k, variant):
+def monotone_case(cfg, k, variant, builder=None):
     """ Run to step k, fork, raise betas in the fork, take one step in both: new cases must grow. Returns failures. """
     import starsim as ss, sciris as sc
     cases = {}
@@ -1273,12 +1390,13 @@ def monotone_case(cfg, k, variant):
         return out
     ss.Infection.infect = w
     try:
-        np.random.seed(cfg['rand_seed'])
-        sim = build(cfg); sim.init()
+        np.random.seed(cfg.get('rand_seed', 1))
+        sim = (builder or build)(cfg); sim.init()
         for _ in range(k): sim.run_one_step()
         A = sc.dcp(sim); B = sc.dcp(sim)
         for i, d in enumerate(B.diseases.values()):
-            d.pars.beta = raised(d.pars.beta, variant, i)
+            if isinstance(d, ss.Infection):
+                d.pars.beta = raised(d.pars.beta, variant, i)
         st = np.random.get_state()
         A.run_one_step()
         np.random.set_state(st)
@@ -1289,13 +1407,16 @@ def monotone_case(cfg, k, variant):
     for name, la in cases.get(id(A), {}).items():
         lb = cases.get(id(B), {}).get(name, [])
         if la and lb:
+            # the FIRST call after the fork starts from the same state with the same random numbers; a disease on a finer
+            # timeline calls infect() again within the sim step, from states that already differ
+            la = la[:1]; lb = lb[:1]
             lost = la[-1] - lb[-1]
             if lost:
                 boundary = 'zero-to-positive' if variant['kind'] == 'zero-to-positive' else 'same-zeros'
                 fails.append(dict(signature=dict(oracle='monotone-beta', boundary=boundary),
                                   what=f"{name} step {k}: from the same state and seed, raising beta ({variant}) infects {len(lb[-1])} agents instead of {len(la[-1])}, "
                                        f"but agents {sorted(lost)[:6]} infected at the lower beta are no longer infected"))
-    return fails, (sum(len(x[-1]) for x in cases.get(id(A), {}).values() if x), sum(len(x[-1]) for x in cases.get(id(B), {}).values() if x))
+    return fails, (sum(len(x[0]) for x in cases.get(id(A), {}).values() if x), sum(len(x[0]) for x in cases.get(id(B), {}).values() if x))
 
 
 def pool_churn_cfg(seed, variant):
@@ -1369,6 +1490,7 @@ def search(ctx):
         ctx.count('monotone_cases'); ctx.count('monotone_nontrivial', int(sizes[1] > sizes[0]))
         for f in fails:
             ctx.fail(f['signature'], f['what'], dict(kind='monotone', cfg=cfg, k=k, variant=variant))
+    search_zoo(ctx)
     # the recorded finding: zero -> positive shifts the random stream of later directions
     try:
         fails, _ = monotone_case(KNOWN_MONOTONE['cfg'], KNOWN_MONOTONE['k'], KNOWN_MONOTONE['variant'])
@@ -1378,7 +1500,52 @@ def search(ctx):
         ctx.broke('search', 'C12.monotone-known', f'{type(e).__name__}: {e}')
 
 
+def search_zoo(ctx):
+    """ every entry of the shared zoo that has a disease: the whole event-level oracle on the recorded run (targets susceptible and
+        active, once per disease and step, sources infectious and joined over a positive-beta direction of that step's edges, zero
+        factors, per-edge probability and net_beta, effective factors, outcomes only inside transmission windows, pool groups /
+        destination / probability, TimePar betas of own-timestep diseases), plus one monotone-in-beta fork per entry """
+    from harness import zoo
+    ev = dict(events=0, kernel_calls=0, pool_cases=0)
+    for i, (name, cfg) in enumerate(zoo.configs()):
+        if not zoo_has_transmission(cfg):
+            ctx.count('zoo_skipped_no_disease'); continue      # killer-only: no disease, nothing can be transmitted
+        try:
+            R = zoo_run_cached(name, cfg)
+            fails = oracle_records(R, cfg)
+        except Exception as e:
+            ctx.count('zoo_exceptions'); ctx.notes['last_zoo_exception'] = f'{name}: {type(e).__name__}: {e}'; continue
+        ctx.count('zoo_runs')
+        ev['events'] += sum(len(r['out'][0]) for r in R.infects); ev['kernel_calls'] += sum(len(r['calls']) for r in R.infects)
+        ev['pool_cases'] += sum(len(e['uids']) for r in R.pools for e in r['prog'])
+        for f in fails:
+            ctx.fail(f['signature'], f'[zoo:{name}] ' + f['what'], dict(kind='zoo-sim', name=name, cfg=cfg, oracle=f['signature']['oracle']))
+        # monotone in beta: needs a network route with a non-zero beta to be meaningful; pools-only entries have disease beta unused
+        nsteps = max((r['ti'] for r in R.infects), default=0)
+        if not R.infects or not any(c for r in R.infects for c in r['calls']):
+            ctx.count('zoo_monotone_not_applicable'); continue
+        k = 1 + (i + ctx.seed) % max(1, min(nsteps, 4))
+        variant = zoo_monotone_variant(cfg, i, ctx.seed)
+        try:
+            mf, sizes = monotone_case(cfg, k, variant, builder=zoo_build)
+        except Exception as e:
+            ctx.count('zoo_exceptions'); ctx.notes['last_zoo_exception'] = f'{name} (monotone): {type(e).__name__}: {e}'; continue
+        ctx.count('zoo_monotone_runs'); ctx.count('zoo_monotone_nontrivial', int(sizes[1] > sizes[0]))
+        for f in mf:
+            ctx.fail(f['signature'], f'[zoo:{name}] ' + f['what'], dict(kind='zoo-monotone', name=name, cfg=cfg, k=k, variant=variant))
+    ctx.notes['zoo_oracle_events'] = ev
+
+
 def replay(ctx, data):
+    if data.get('kind') == 'zoo-sim':
+        fails = oracle_records(run_recorded_zoo(data['cfg']), data['cfg'])
+        for f in fails: print('  ', f['signature'], f['what'][:300])
+        want = data.get('oracle')
+        return any(want is None or f['signature']['oracle'] == want for f in fails)
+    if data.get('kind') == 'zoo-monotone':
+        fails, sizes = monotone_case(data['cfg'], data['k'], data['variant'], builder=zoo_build)
+        for f in fails: print('  ', f['signature'], f['what'][:300])
+        return bool(fails)
     if data.get('kind') == 'boundary':
         fails = c12_extra.oracle_boundary()
         for f in fails: print('  ', f['what'][:300])
